@@ -11,6 +11,12 @@
 //   * solve(rhs, x) without a matrix uses the float-rounded system matrix of the hierarchy: its report must be
 //     truthful for THAT matrix (the harness rounds its own copy to float).
 #include <amgcl/backend/builtin.hpp>
+#include <amgcl/backend/builtin_hybrid.hpp>
+#include <amgcl/value_type/static_matrix.hpp>
+#include <amgcl/adapter/block_matrix.hpp>
+#include <amgcl/make_block_solver.hpp>
+#include <amgcl/coarsening/smoothed_aggregation.hpp>
+#include <amgcl/relaxation/spai0.hpp>
 #include <amgcl/adapter/crs_tuple.hpp>
 #include <amgcl/amg.hpp>
 #include <amgcl/make_solver.hpp>
@@ -49,9 +55,41 @@ template <class Solver> void run(Case &c, const std::string &nm, const Csr<doubl
     } catch (const std::exception &e) { c.fail(nm + ":exception", e.what()); }
 }
 
+// Mixed precision combined with block values: a single-precision block hierarchy (hybrid backend, or block backend behind
+// make_block_solver) under a double-precision Krylov solver must still solve the SCALAR system to the default tolerance.
+// (added after a seeded change in the scalar/block reinterpretation of vectors was missed by the scalar-only sub-check)
+template <int B> void mixed_block_case(long idx) {
+    typedef static_matrix<double, B, B> DBk; typedef static_matrix<float, B, B> FBk;
+    Rng r(vf::case_seed("mixed_block", idx)); vf::GridSpec g; Csr<double> S = vf::model_problem(r, 300, 700, &g);
+    std::vector<double> Cb = vf::spd_block(B, r); Csr<double> A = vf::kron(S, Cb, B); std::vector<double> f = vf::random_vector(A.n, r);
+    Case c("mixed_block", idx, J().n("b", B).n("n", A.n).n("nnz", A.nnz()).n("nx", g.nx).n("ny", g.ny).n("nz", g.nz).n("contrast", g.contrast).n("aniso", g.aniso));
+    vf::SolveSpec sp; sp.maxiter = 100; sp.tol = 1e-8; sp.explicit_res = true; auto T = A.tie();
+    try {   // hybrid backend: float block hierarchy, double FGMRES
+        typedef make_solver<amg<backend::builtin_hybrid<FBk>, coarsening::smoothed_aggregation, relaxation::spai0>, solver::fgmres<backend::builtin_hybrid<DBk>>> S1;
+        typename S1::params p; p.precond.coarsening.aggr.block_size = B; p.precond.coarse_enough = 100; S1 s(T, p);
+        std::vector<double> x(A.n, 0.0); auto res = s(T, f, x); double tv = 0;
+        vf::check_solution(c, "hybrid-float-precond/double-fgmres", A, f, x, std::get<0>(res), std::get<1>(res), sp, &tv);
+        c.check(std::get<1>(res) < 1e-8, "hybrid-float-precond/double-fgmres:not-converged", "float block hierarchy (hybrid backend) under a double solver did not reach 1e-8 on a block model problem", J().n("iters", std::get<0>(res)).n("reported", std::get<1>(res)));
+        vf::sample("mixed_block", J().s("formulation", "hybrid float precond / double fgmres").n("b", B).n("n", A.n).n("iters", std::get<0>(res)).n("reported", std::get<1>(res)).n("true", tv));
+    } catch (const std::exception &e) { c.fail("hybrid-float-precond/double-fgmres:exception", e.what()); }
+    try {   // make_block_solver: float block hierarchy, double block FGMRES
+        typedef make_block_solver<amg<backend::builtin<FBk>, coarsening::smoothed_aggregation, relaxation::spai0>, solver::fgmres<backend::builtin<DBk>>> S2;
+        typename S2::params p; p.precond.coarse_enough = 100; S2 s(T, p);
+        std::vector<double> x(A.n, 0.0); auto res = s(f, x);
+        Csr<double> Af = A; for (auto &v : Af.val) v = (double)(float)v;      // the matrix-free call works on the float-rounded system matrix
+        // (block products with a float matrix are evaluated in float: the residual recomputation carries the float unit roundoff)
+        vf::SolveSpec s2 = sp; s2.must_converge = false; s2.u = std::numeric_limits<float>::epsilon(); vf::check_solution(c, "block-solver-float-precond/double-fgmres(float system matrix)", Af, f, x, std::get<0>(res), std::get<1>(res), s2);
+        backend::crs<DBk> Ab(adapter::block_matrix<DBk>(T)); std::vector<double> y(A.n, 0.0); auto r2 = s(Ab, f, y);
+        vf::check_solution(c, "block-solver-float-precond/double-fgmres", A, f, y, std::get<0>(r2), std::get<1>(r2), sp);
+        c.check(std::get<1>(r2) < 1e-8, "block-solver-float-precond/double-fgmres:not-converged", "float block hierarchy behind make_block_solver under a double solver did not reach 1e-8 on a block model problem", J().n("iters", std::get<0>(r2)).n("reported", std::get<1>(r2)));
+    } catch (const std::exception &e) { c.fail("block-solver-float-precond/double-fgmres:exception", e.what()); }
+    c.nontrivial(); vf::obs_sum("mixed_precision_block_cases");
+}
+
 int main(int argc, char **argv) {
     vf::init(argc, argv);
     vf::obs_add("threads_seen", std::to_string(omp_get_max_threads()));
+    { long NB = vf::tier(12, 120); for (long idx = 0; idx < NB; ++idx) { if (!vf::selected("mixed_block", idx)) continue; if (idx % 2) mixed_block_case<3>(idx); else mixed_block_case<2>(idx); } }
     long N = vf::tier(144, 1440);
     for (long idx = 0; idx < N; ++idx) {
         if (!vf::selected("mixed", idx)) continue;
